@@ -115,14 +115,13 @@ def run_symbolic(ob, grid, timeout_ms=20000, max_leaves=3000):
     try:
         with installed():
             w = SymWorld(grid)
-            try:
-                paths = run_forked(lambda: ob.setup(w))
-            except NeedSplit:
-                paths = [([], None)]
+            # the trace itself may depend on size relations (e.g. `cell_value.size == 1`): split on those first, so
+            # that every region of sizes gets one complete trace which all its index regions share
+            setup_leaves = explore(lambda: run_forked(lambda: ob.setup(w)), base=(), max_leaves=64)
             worst = 'proved'
-            for pathconds, S0 in paths:
+            for sconds, pathconds, S0 in [(sc, pc, S_) for sc, paths in setup_leaves for pc, S_ in paths]:
                 def leaf_fn(part, S0=S0, pathconds=pathconds):
-                    S = S0 if S0 is not None else ob.setup(w)
+                    S = S0
                     cl = ob.claims(w, S, w.P, part)
                     labels = [c[0] for c in cl]
                     exprs = [resolve_ints(B.of(c[1])) for c in cl]
@@ -137,7 +136,7 @@ def run_symbolic(ob, grid, timeout_ms=20000, max_leaves=3000):
                     return labels, exprs, hy
                 leaves = []
                 for part in ob.parts(w):
-                    leaves += explore((lambda part=part: leaf_fn(part)), base=tuple(ob.region(w)), max_leaves=max_leaves)
+                    leaves += explore((lambda part=part: leaf_fn(part)), base=tuple(ob.region(w)) + tuple(sconds), max_leaves=max_leaves)
                 out['nleaves'] += len(leaves)
                 for conds, (labels, exprs, hy) in leaves:
                     for label, claim in zip(labels, exprs):
@@ -248,15 +247,25 @@ def conformance(ob, grid, sizes, seed):
     """trace symbolically, run natively with the same inputs, compare every output of setup()"""
     reset_ctx()
     nd = GRIDS[grid]['nd']
-    with installed():
-        ws = SymWorld(grid)
-        ws.choice_rng = random.Random(seed)
-        Ss = ob.setup(ws)
     wr = RealWorld(grid, sizes, seed=seed)
     wr.choice_rng = random.Random(seed)
     Sr = ob.setup(wr)
     sizes3 = list(sizes) + [1] * (3 - len(sizes))
     env = Env(sizes3, wr.src.values)
+
+    class ConcreteFork:
+        """data-dependent branches of the traced code follow the concrete input values"""
+        def decide_real(self, b):
+            return bool(evaluate(b, env))
+    with installed(), concrete_sizes(sizes3):
+        ws = SymWorld(grid)
+        ws.choice_rng = random.Random(seed)
+        old = CTX.trace_fork
+        CTX.trace_fork = ConcreteFork()
+        try:
+            Ss = ob.setup(ws)
+        finally:
+            CTX.trace_fork = old
     problems = []
     ncmp = 0
     cellshape = tuple(ws.src.size(a) + 2 for a in range(nd))
